@@ -136,7 +136,7 @@ ExpLenOK(e) == REq(TreeSum("Expect", LiftExpect(e.G))[e.G.S][2], e.res)
 
 InDomainIn(e) ==
   CASE e.op \in {"parse"} -> InsideExact(e.sr, e.G)
-    [] e.op \in {"prefix", "treesum", "pnext", "ntw", "lmcall", "explen"} ->
+    [] e.op \in {"prefix", "treesum", "treesum1", "pnext", "ntw", "lmcall", "explen"} ->
           InsideExact(e.sr, e.G) /\ TreeSumExact(e.sr, e.G)
     [] e.op \in {"transform", "derivative", "addeos"} -> InsideExact(e.sr, e.in)
     [] e.op \in {"prefixgrammar", "normalize"} -> InsideExact(e.sr, e.in) /\ TreeSumExact(e.sr, e.in)
@@ -157,6 +157,7 @@ Failed(e) ==
   CASE e.op = "parse" -> IF ParseOK(e) THEN {} ELSE {"weight"}
     [] e.op = "prefix" -> IF PrefixOK(e) THEN {} ELSE {"prefixweight"}
     [] e.op = "treesum" -> IF TreesumOK(e) THEN {} ELSE {"treesum"}
+    [] e.op = "treesum1" -> IF WEq(e.sr, TreeSum(e.sr, e.G)[e.G.S], e.res) THEN {} ELSE {"treesum"}
     [] e.op = "treesumfix" -> IF TreesumFixOK(e) THEN {} ELSE {"fixpoint"}
     [] e.op = "transform" -> (IF TransformWeightsOK(e) THEN {} ELSE {"language"}) \cup FailedPosts(e)
     [] e.op = "derivative" -> IF DerivativeOK(e) THEN {} ELSE {"derivative"}
